@@ -7,6 +7,8 @@ HOOK_COMMITS = subprocess.run(["git", "-C", "/repo", "log", "--format=%H", "--gr
 DIFF = "differential runtime monitor: real Vt vs executable reference model after every function"
 CLAIMED = {
  # id: (technique, level text, level note, design ref)
+ "C01": ("catch_unwind + overflow/debug-assertion build around every public call and query, process-level isolation of aborts/non-returns, CPU-time vs work-model cost monitor, release re-run and Miri shard (thorough)", "No panic / abort / non-return and no cost out of proportion on ~8e5 (quick) histories incl. all 3-call sequences over a 54-atom alphabet with every query after every call; thorough repeats the workload in the release build, extends sizes to 512x128 / 4096x1 / 1x4096 and interprets 320 hostile histories under Miri.", "sizes above 512x128 (4096x1, 1x4096), limits above 100000 and Builder::build itself are outside the workload (DESIGN section 4); 'never hangs' is decided as bounded work-proportionality", "5 C01"),
+ "C11": ("two-terminal round-trip monitor (original vs fresh terminal fed dump()) with probe scripts and random continuations; known-finding predicates over the hooked dump-time state", "~5e4 (quick) round trips, cut at random characters and at EVERY position of short histories, compared after restoring and after every continuation call; the 2112-state enumeration of the saved-cursor dump branch. Divergences in states matching C11-a/b/c are reported as KNOWN-FINDING, anything else as VIOLATION.", "equivalence judged on visible state + canonical hidden state (scrollback excluded, parked saved position modulo clamping, dead parser registers ignored); the dump string itself is not compared", "5 C11"),
  "C04": (DIFF + " (print/auto-wrap/insert/charset/REP steps)", "Every Print/REP/charset/DECAWM/IRM step of ~5e5 (quick) / ~1e7 (thorough) histories is compared cell-for-cell, mark-for-mark and mode-for-mode with the reference model, including ALL sequences of 3 (4) atoms from a 28-atom alphabet on 13 tiny screens and the content x margins x modes x position x command product. Held = no divergence on those executions.", "reference model + conventions U1-U6 trusted; resize content adopted from the real terminal", "5 C04"),
  "C05": (DIFF + " (cursor movement/addressing steps)", "Every movement/addressing function executed in the histories is compared with the model's clamped-arithmetic answer and with a frame check (no cell changes); the command x parameter class x start position x origin x margin-pair product is enumerated on sizes up to 6x5 (17x2).", "reference model trusted; U1/U2 conventions", "5 C05"),
  "C06": (DIFF + " (scroll steps, scrollback compared line by line)", "Every scrolling function (LF/IND/NEL/RI on a margin, wrap-scroll, SU/SD/IL/DL, DECSTBM) is compared with the model, the scrollback line by line after every step; gates require >=1000 scrolls of each shape.", "reference model trusted", "5 C06"),
